@@ -1,6 +1,7 @@
 //! sv — runtime-monitoring harness for cloudwego/sonic-rs (see /verif/DESIGN.md).
 pub mod core;
 pub mod gen;
+pub mod ledger;
 pub mod mon;
 pub mod refmodel;
 pub mod rng;
